@@ -163,7 +163,8 @@ pub fn run_block_c17(verif_seed: u64, block: u64, n_runs: usize, opts: &BlockOpt
     for run in 0..n_runs as u64 {
         let seed = run_seed(verif_seed, block, run);
         crate::engine::CURRENT_RUN.store(run, std::sync::atomic::Ordering::Relaxed);
-        let g = gen_run(seed, Mode::C17);
+        // every 16th run is an exception-safety sweep (element-operation fault at every position of one call)
+        let g = if run % 16 == 5 { crate::gen::gen_elem_sweep(seed) } else { gen_run(seed, Mode::C17) };
         // every 8th run also checks the in-process pristine instances against brand-new processes
         let ro = RunOpts { fresh_process: run % 8 == 7, ..RunOpts::default() };
         let r = run_spec(&g.spec, Prop::C17, &ro);
@@ -354,6 +355,69 @@ pub fn build_cases(base: &SlotCfg, r: &mut Rng) -> Vec<BuildCase> {
         let n: usize = c.shape.iter().product(); // product of no dimensions = 1 element
         c.data.truncate(n);
         out.push(BuildCase { label: "dynamic data with too few dimensions".into(), cfg: c, valid: false, either: false });
+    }
+    out
+}
+
+/// decision-table rows over a long, contiguous, explicitly given axis (same strategy kind and
+/// declared minimum as `base`; owned rank-1/2 data so that the rows are cheap)
+pub fn long_axis_cases(base: &SlotCfg, r: &mut Rng) -> Vec<BuildCase> {
+    let two = base.kind.is_2d();
+    let n = r.range(60, 200);
+    let m = if two { r.range(2, 4) } else { r.range(1, 2) };
+    let step = *r.pick(&[1.0, 0.5, 0.125, 3.0]);
+    let x0 = *r.pick(&[0.0, -17.0, 1000.5]);
+    let long: Vec<Fb> = (0..n).map(|i| Fb(x0 + i as f64 * step)).collect();
+    let short: Vec<Fb> = (0..m).map(|i| Fb(i as f64)).collect();
+    // 2-D: the long axis is x or y
+    let long_is_y = two && r.chance(1, 2);
+    let shape = if two { if long_is_y { vec![m, n] } else { vec![n, m] } } else if m == 1 { vec![n] } else { vec![n, m] };
+    let total: usize = shape.iter().product();
+    let cfg = SlotCfg {
+        kind: base.kind,
+        elem: Elem::F64,
+        storage: Storage::Owned,
+        dimty: if shape.len() == 1 { DimTy::Ix1 } else { DimTy::Ix2 },
+        shape,
+        x: Some(if long_is_y { short.clone() } else { long.clone() }),
+        y: if two { Some(if long_is_y { long.clone() } else { short.clone() }) } else { None },
+        data: (0..total).map(|i| Fb((i % 17) as f64 - 8.0)).collect(),
+        extrapolate: false,
+        bc: Bc::NotAKnot,
+        probe_min: base.probe_min,
+        build_plan: BuildPlan::Ok,
+        data_lay: Lay::C,
+        x_lay: Lay::C,
+        build_order: 0,
+    };
+    let name = if long_is_y { "y" } else { "x" };
+    let get = |c: &SlotCfg| -> Vec<Fb> { if long_is_y { c.y.clone().unwrap() } else { c.x.clone().unwrap() } };
+    let set = |c: &mut SlotCfg, v: Vec<Fb>| {
+        if long_is_y {
+            c.y = Some(v)
+        } else {
+            c.x = Some(v)
+        }
+    };
+    let mut out = vec![];
+    for p in 0..n - 1 {
+        let mut c = cfg.clone();
+        let mut a = get(&c);
+        a[p + 1] = a[p];
+        set(&mut c, a);
+        out.push(BuildCase { label: format!("long {name} axis ({n} points): tie at {p}"), cfg: c, valid: false, either: false });
+        let mut c = cfg.clone();
+        let mut a = get(&c);
+        a.swap(p, p + 1);
+        set(&mut c, a);
+        out.push(BuildCase { label: format!("long {name} axis ({n} points): swapped pair at {p}"), cfg: c, valid: false, either: false });
+    }
+    for p in 0..n {
+        let mut c = cfg.clone();
+        let mut a = get(&c);
+        a[p] = Fb(f64::NAN);
+        set(&mut c, a);
+        out.push(BuildCase { label: format!("long {name} axis ({n} points): NaN at {p}"), cfg: c, valid: false, either: false });
     }
     out
 }
@@ -558,8 +622,14 @@ pub fn run_block_c18(verif_seed: u64, block: u64, n_bases: usize, opts: &BlockOp
                 break 'bases;
             }
         }
-        // --- builder decision table for the first slot ---------------------------------------
-        for case in build_cases(&g.spec.slots[0], &mut r) {
+        // --- builder decision table for the first slot; for every 6th base scenario also for a
+        // LONG explicit axis (60-200 points: validation code may work in blocks), with a tie, a
+        // swapped pair and a NaN at every position
+        let mut cases = build_cases(&g.spec.slots[0], &mut r);
+        if run % 6 == 1 {
+            cases.extend(long_axis_cases(&g.spec.slots[0], &mut r));
+        }
+        for case in cases {
             sum.build_cases += 1;
             let mut c = Counters(std::mem::take(&mut sum.counters));
             c.add(if case.valid { "build.valid_inputs_failing_strategy" } else { "build.invalid_inputs" }, 1);
